@@ -233,15 +233,29 @@ fn write_forwarded_suffix(
 ///
 /// Kawa reads `Content-Length` with `str::parse::<usize>`, which accepts a
 /// leading `+` that RFC 9110 §8.6 (`1*DIGIT`) does not, and forwards it as is.
+///
+/// Kawa's token scanners accept zero characters: a request line without method
+/// (`" / HTTP/1.1"`) or without target (`"GET  HTTP/1.1"`, routed as `/`) and a
+/// field line without name (`": v"`) are parsed and forwarded verbatim although
+/// RFC 9112 §3 and RFC 9110 §5.1 require at least one character.
 fn invalid_h1_request_head(request: &GenericHttpStream) -> Option<&'static str> {
-    let version = match &request.detached.status_line {
-        kawa::StatusLine::Request { version, .. } => version,
+    let (version, method, uri) = match &request.detached.status_line {
+        kawa::StatusLine::Request {
+            version,
+            method,
+            uri,
+            ..
+        } => (version, method, uri),
         _ => return None,
     };
     if !matches!(version, kawa::Version::V10 | kawa::Version::V11) {
         return None;
     }
     let buf = request.storage.buffer();
+    let is_empty = |store: &kawa::Store| store.data_opt(buf).is_none_or(|data| data.is_empty());
+    if is_empty(method) || is_empty(uri) {
+        return Some("empty method or request-target");
+    }
     let mut transfer_encodings = 0;
     for block in &request.blocks {
         let kawa::Block::Header(header) = block else {
@@ -251,6 +265,9 @@ fn invalid_h1_request_head(request: &GenericHttpStream) -> Option<&'static str> 
             continue;
         }
         let key = header.key.data(buf);
+        if key.is_empty() {
+            return Some("empty field name");
+        }
         if compare_no_case(key, b"content-length") {
             let value = header.val.data(buf);
             if value.is_empty() || !value.iter().all(u8::is_ascii_digit) {
